@@ -4,7 +4,7 @@ import vlib
 
 
 # words that the specification spells in ASCII and the source text in other scripts
-PLACEHOLDERS = {"Ux663": "\u0663"}      # ARABIC-INDIC DIGIT THREE
+PLACEHOLDERS = {"Ux663": "\u0663", "UxE9": "\u00e9"}      # ARABIC-INDIC DIGIT THREE
 
 
 def _cases(res):
